@@ -112,12 +112,6 @@ theorem iterAfterBody_pre (pl : List Event) (po : Bytes) (k : Nat) (rb : Res) :
       split <;> rfl
     · simp only [hs, Bool.false_eq_true, if_false]; rfl
 
-/-- The state inside any outcome of `iterAfterBody` has the writer of the body result. -/
-def IterOut.st : IterOut → St
-  | .abort s => s
-  | .stop s => s
-  | .next s => s
-
 theorem iterAfterBody_w (rb : Res) : (iterAfterBody rb).st.w = rb.st.w := by
   unfold iterAfterBody
   cases rb.err with
